@@ -1,7 +1,7 @@
 import Pun.Model.DepCtx
 /-!
 Protocol of C16
-  `run <tid>:<ev> …`   events `E:<code> X R C N:<k> G A:<op>[:<kinds>] Q:<op>:<code> T:<child> K:<child> B:<m>:<code> M:<m>`; codes `f p o i u<n>`
+  `run <tid>:<ev> …`   events `E:<code> X R C N:<k> G F A:<op>[:<kinds>] Q:<op>:<code> T:<child> K:<child> B:<m>:<code> M:<m>`; codes `f p o i u<n>`
       → `ok <obs> …`   one per event: `<code>` | `<code>|<fam>,<a>,<b>,<branch>` | `<code>|!<Err>`
       → `err Other`    when a block is left that was never entered or a manager is entered that was never built
   `disp <op> <code>`   → `ok <fam>,<a>,<b>,<branch>` | `err <Kind>`
@@ -40,6 +40,7 @@ def parseEv : List String → Option Ev
   | ["C"] => some .genClose
   | ["N", k] => k.toNat?.map Ev.exitAt
   | ["G"] => some .get
+  | ["F"] => some .closeOther
   | ["A", op] => (parseOp op).map Ev.arith
   | ["Q", op, c] => do some (Ev.call (← parseOp op) (← parseCode c))
   | ["T", ch] => ch.toNat?.map Ev.spawnThread
